@@ -84,9 +84,10 @@ SrcShapes ==
     [] SrcPreset = "cre"   -> {<<6>>, <<3, 4>>}
     [] SrcPreset = "cube"  -> {<<2, 2, 2>>}
     [] SrcPreset = "cre7"  -> {<<7>>}
+    [] SrcPreset = "sq"    -> {<<3, 3>>}
     \* many blocks along one axis (lean grids include the all-ones grid): scans and reduction trees over 9..33 blocks
     [] SrcPreset = "long"  -> {<<n>> : n \in {9, 13, 16, 17, 25, 32, 33}}
-SrcKinds == CASE SrcPreset \in {"1d", "1d7", "lean", "lean1", "lean2", "lean3", "long"} -> {"i"} [] SrcPreset \in {"cube", "cre7"} -> {"i", "c"} [] SrcPreset = "rnd" -> {"i", "f"} [] SrcPreset = "red" -> {"i", "b", "n", "m"} [] SrcPreset = "cre" -> {"c"}
+SrcKinds == CASE SrcPreset \in {"1d", "1d7", "lean", "lean1", "lean2", "lean3", "long", "sq"} -> {"i"} [] SrcPreset \in {"cube", "cre7"} -> {"i", "c"} [] SrcPreset = "rnd" -> {"i", "f"} [] SrcPreset = "red" -> {"i", "b", "n", "m"} [] SrcPreset = "cre" -> {"c"}
               [] OTHER -> {"i", "f", "b"}
 
 \* source data: distinct small integers (index-mapping errors change values);
@@ -146,7 +147,8 @@ PairOK(act) == \A h \in Operands(act) \ {0} : (ProdAct(h) \o ">" \o act.a) \noti
 \* lean (exhaustive deep) corpora: every action after the first consumes the most recent collection, so
 \* a program of depth n is a genuine n-fold composition (operations on older handles are programs of the
 \* shallower corpora); binary operations may still combine it with any older collection (sharing)
-ChainOK(act) == ~Lean \/ Sim \/ NActs = 0 \/ Len(env) \in Operands(act)
+\* (an action without array operands - a second random base - starts a new chain)
+ChainOK(act) == ~Lean \/ Sim \/ NActs = 0 \/ Len(env) \in Operands(act) \/ Operands(act) \ {0} = {}
 Push(act, val) ==
   /\ PairOK(act) /\ ChainOK(act)
   /\ env' = Append(env, val)
